@@ -97,8 +97,7 @@ namespace c20 {
     };
     struct KeyRef { int key; explicit KeyRef( int k ): key( k ) {} };   // "other item" for the *_with( key, less ) forms
 
-    inline int key_of( Item const& i ) { return i.key; }
-    inline int key_of( KeyRef const& i ) { return i.key; }
+    template <typename T> inline int key_of( T const& i ) { return i.key; }      // Item, KeyRef, intrusive items
     inline int key_of( int k ) { return k; }
 
     struct item_less {
@@ -274,26 +273,30 @@ namespace c20 {
     }
 
     struct QOut { std::string res; int disp; QOut(): disp( 0 ) {} };
+    // adapters of containers whose disposer timing is unspecified (BasketQueue) report per-operation counts as 0 and
+    // the total number of disposer calls of the whole sequence at the end
+    template <typename A> struct deferred_dispose { static const bool value = false; };
 
     template <typename Adapter>
     void run_queue( Seq const& s, std::ostream& out )
     {
         out << "# " << s.id << "\n";
         std::unique_ptr<Adapter> a( new Adapter( s ));
+        int const dstart = disposed();
         for ( size_t i = 0; i < s.ops.size(); ++i ) {
             QOut o;
             a->quiesce();
             int d0 = disposed();
             bool ok = a->exec( s.ops[i], o );
             a->quiesce();
-            o.disp = disposed() - d0;
+            o.disp = deferred_dispose<Adapter>::value ? 0 : disposed() - d0;
             if ( !ok ) { out << i << " na d" << o.disp << "\n"; continue; }
             out << i << " " << o.res << " d" << o.disp << "\n";
             for ( auto const& b : bad()) out << i << " BAD " << b << "\n";
             bad().clear();
         }
         a->quiesce();
-        int before_end = disposed();
+        int before_end = deferred_dispose<Adapter>::value ? dstart : disposed();
         a->destroy();
         a->quiesce();
         out << "end d" << ( disposed() - before_end ) << "\n";
